@@ -232,7 +232,7 @@ def h_bindings(E, idx):
     return kind
 
 
-FUNC_POW = ['sin(4)^0.5', 'cos(2)^(1/3)', '(0-cos(1))^0.5', 'ln(0.5)^0.5', 'sin(4)^2', '2^sin(4)', 'sin(4)^-1', 'sqrt(4)^0.5', 'abs(-2)^0.5', 'exp(1)^sin(4)',
+FUNC_POW = ['arccot(0)', 'arccot(x-x)+arccot(0.5*i)', 'arccot(0*i)', 'arccot(-0.0)', 'arctan(0)+arccot(0)', 'sin(4)^0.5', 'cos(2)^(1/3)', '(0-cos(1))^0.5', 'ln(0.5)^0.5', 'sin(4)^2', '2^sin(4)', 'sin(4)^-1', 'sqrt(4)^0.5', 'abs(-2)^0.5', 'exp(1)^sin(4)',
             'sin(4)||cos(2)', '-sin(4)^0.5', 'sin(x)^y', 'tan(2)^1.5', 'arctan(-3)^0.25', 'sin(4)^(1/2)*cos(2)^(1/2)', '(sin(4)*cos(2))^0.5', 'sin(4)/cos(2)^0.5',
             'sinh(-1)^0.5', 'floor(-1.5)^0.5', 'min(-2,3)^0.5', 're(-4)^0.5', 'conj(-4)^0.5', 'kronecker(1,1)^0.5', '(sin(4)^0.5)^2', 'x^y', 'x^0.5', '(0-y)^x']
 
@@ -244,11 +244,12 @@ def h_function_power(E, idx):
     import cmath
     from mitxgraders.helpers.calc.expressions import evaluator, DEFAULT_FUNCTIONS, DEFAULT_SUFFIXES
     expr = FUNC_POW[idx]
-    env = {'x': -2.0, 'y': 0.5}
+    env = {'x': -2.0, 'y': 0.5, 'i': 1j}
     got, _ = evaluator(expr, env, DEFAULT_FUNCTIONS, DEFAULT_SUFFIXES)
     ns = {'sin': lambda z: complex(math.sin(z)), 'cos': lambda z: complex(math.cos(z)), 'tan': lambda z: complex(math.tan(z)), 'ln': lambda z: complex(math.log(z)),
           'sqrt': cmath.sqrt, 'abs': lambda z: complex(abs(z)), 'exp': lambda z: complex(math.exp(z)), 'arctan': lambda z: complex(math.atan(z)),
           'sinh': lambda z: complex(math.sinh(z)), 'floor': lambda z: complex(math.floor(z)), 'min': lambda *a: complex(min(a)), 're': lambda z: complex(z.real),
+          'arccot': lambda z: (cmath.atan(1 / z) if z != 0 else complex(math.pi / 2)) if (complex(z).real >= 0) else cmath.atan(1 / z) + math.pi, 'i': 1j,
           'conj': lambda z: complex(z).conjugate() if complex(z).imag != 0 else complex(complex(z).real), 'kronecker': lambda a, b: complex(1 if a == b else 0), 'x': -2.0, 'y': 0.5}
     py = expr.replace('^', '**')
     if '||' in py:
